@@ -488,6 +488,15 @@ func (e *Env) trCall(n *ast.CallExpr) TVal {
 			return e.fail("calls(%q) is only available in the contract of the calling function", tg)
 		}
 		return TVal{T: e.st.get(comp), Sort: "Int"}
+	case "visited":
+		// visited(k): the map iteration of the function under contract has already handed out key k
+		if !need(1) {
+			return TVal{T: "false", Sort: "Bool"}
+		}
+		if e.x.visComp == "" {
+			return e.fail("visited(k): the function under contract has no map iteration")
+		}
+		return TVal{T: "(select " + e.st.get(e.x.visComp) + " " + arg(0).T + ")", Sort: "Bool"}
 	case "allok":
 		// allok("<target>[@k]", i): every call of <target> made so far by this activation returned true as result i
 		if !need(2) {
